@@ -381,6 +381,15 @@ def check_queries(rec, prefix, G, M, nodes, ctx='', probes=None, nbunches=(), li
     def listed(x):
         return list(x)
 
+    def nb_shape(nb, i, ordered=False):
+        """The same nbunch as list / tuple / iterator / set / dict keys (rotated); ordered containers
+        only where the iteration order decides which arcs a listed finding concerns."""
+        forms = [list, tuple, iter] if ordered else [list, tuple, iter, set, lambda x: dict.fromkeys(x).keys()]
+        f = forms[(i + len(nb)) % len(forms)]
+        if f is tuple and any(isinstance(n, (tuple, frozenset)) for n in nodes):
+            f = list        # a tuple nbunch that is itself a node id means that single node to networkx
+        return f(nb)
+
     ts = [None] + probes
     if light:
         inhabited = [t for t in probes if M.count(t)]
@@ -423,7 +432,7 @@ def check_queries(rec, prefix, G, M, nodes, ctx='', probes=None, nbunches=(), li
         for nb in nbunches:
             seq = [n for n in nb if n in M.nodes]
             exp_edges = list(S.edges(seq))
-            ok, items = call('interactions.nbunch' + tag, G.interactions, list(nb), t)
+            ok, items = call('interactions.nbunch' + tag, G.interactions, nb_shape(nb, len(ts), ordered=True), t)
             if ok:
                 cmp_inter('interactions.nbunch' + tag, items, exp_edges, seq, extra='(%r)' % (nb,))
         if directed:
@@ -437,7 +446,7 @@ def check_queries(rec, prefix, G, M, nodes, ctx='', probes=None, nbunches=(), li
                     cmp_inter(name + tag, items, ed(), None)
                 for nb in nbunches:
                     seq = [n for n in nb if n in M.nodes]
-                    ok, items = call(name + '.nbunch' + tag, fn, list(nb), t)
+                    ok, items = call(name + '.nbunch' + tag, fn, nb_shape(nb, len(name)), t)
                     if ok:
                         cmp_inter(name + '.nbunch' + tag, items, list(ed(seq)), None, extra='(%r)' % (nb,))
 
@@ -508,7 +517,7 @@ def check_queries(rec, prefix, G, M, nodes, ctx='', probes=None, nbunches=(), li
                     c2, name, got, dict(getattr(S, {'degree': 'degree', 'in': 'in_degree', 'out': 'out_degree'}[kind])())))
             for nb in nbunches:
                 seq = [n for n in nb if n in M.nodes]
-                ok, got = call(name + '.nbunch' + tag, fn, list(nb), t)
+                ok, got = call(name + '.nbunch' + tag, fn, nb_shape(nb, len(name) + 1), t)
                 if ok:
                     good = isinstance(got, dict) and set(got) == set(seq) and all(deg_ok(n, got[n], kind) for n in seq)
                     chk(name + '.nbunch' + tag, good, lambda: '%s %s(%r) = %r' % (c2, name, nb, got))
